@@ -172,6 +172,72 @@ def _same_answer(http_txt, other_txt):
     return False
 
 
+def c16_scale_leg(rep, seed, tier, stats, server, cachegen):
+    """One LONG line with MANY trips (the sizes of a busy urban line over all its service days; a 5-20 MB line file). The generated
+    streams above stay small, so a loader whose cost per trip grows with the number of stops - e.g. one that re-reads a Cap'n Proto list
+    at every stop and so uses up the reader's traversal limit (fixed: d389688) - passes them all. The dataset is regular enough for a
+    closed-form answer: trip k leaves stop 0 at 1000 + 20 k and reaches the last stop 30 s per hop later; the request leaves 1 m south
+    of stop 0 (Euclidean geofilter: 0 s walk) and must catch the first trip leaving at or after its time (min_waiting_time 0)."""
+    rng = random.Random(seed * 9176 + 5)
+    n0 = len(rep.direct)
+    for ns, nt in ([(120, 3000)] if tier != "thorough" else [(120, 3000), (200, 4000), (60, 9000)]):
+        foot = [(s, s, 0, 0) for s in range(ns)]
+        trips = []
+        for k in range(nt):
+            arr = [1000 + 20 * k + 30 * i for i in range(ns)]
+            trips.append((0, 0, k + 1, arr, arr, [1] * ns, [1] * ns))
+        sc = dict(services=[0], onlyLines=[], exceptLines=[], onlyAgencies=[], exceptAgencies=[], onlyModes=[], exceptModes=[])
+        d = dict(ns=ns, nag=1, nsv=1, foot=foot, lines=[(0, 0)], paths=[(0, list(range(ns)), [100] * (ns - 1))], trips=trips, scenarios=[sc],
+                 acc=[], egr=[], cacheall=0, profile="scale")
+        cdir = os.path.join(H.workdir("cache"), "scale-%d-%d" % (ns, nt))
+        head = "#!c16scale one line of %d stops, %d trips (trip k: stop i at 1000 + 20 k + 30 i), scenario 0 = everything\n" % (ns, nt)
+        srv = None
+        try:
+            H.make_cache(d, cdir, did="scale", cachegen=cachegen)
+            srv = H.start_server(cdir, euclid=True, exe=server, tag="c16scale", ready_timeout=180.0)
+            if srv is None or not srv.alive() or getattr(srv, "ready_s", None) is None:
+                rep.direct.append(("scale-startup", "server did not come up on a line file of %d stops x %d trips: %s" % (ns, nt, (srv.output()[-300:] if srv else "")), head)); continue
+            # the timetable is periodic (headway 20 s), so away from its two ends the answer to a request made 20 m seconds later is
+            # the same answer 20 m seconds later - whichever stops the Euclidean geofilter lets the traveller walk to
+            kmax = nt - 1 - (30 * ns) // 20 - 5
+            off = rng.randrange(0, 20)
+            j = rng.randrange(ns // 2, ns)
+            def ask(k):
+                u = "/v2/route?origin=-73,44.999991&destination=-73,%.6f&scenario_id=%s&time_of_trip=%d&min_waiting_time=0&max_first_waiting_time=0" % (
+                    45 + j * 1e-6 + 0.000009, H.uuid(6, 0), 1000 + 20 * k - off)
+                st, hd, body, raw = srv.get(u, timeout=60.0)
+                rep.evaluations += 1; stats["scale requests"] += 1
+                try: jb = json.loads(body.decode())
+                except Exception: jb = None
+                routes = ((jb or {}).get("result") or {}).get("routes") if isinstance(jb, dict) else None
+                r0 = routes[0] if routes else None
+                return u, st, body, (r0 and (r0.get("departureTime"), r0.get("arrivalTime"), len(r0.get("steps", []))))
+            k0 = (30 * ns) // 20 + 10                  # past the start-up zone of the timetable (earlier trips are further down the line)
+            u0, st0, body0, a0 = ask(k0)
+            if not a0:
+                rep.direct.append(("scale-answer-differs", "line file of %d stops x %d trips: GET %s finds no route: %s %s" % (ns, nt, u0[:160], st0, (body0 or b"")[:200].replace(b"\n", b" ")), head + "get %s\n" % u0)); continue
+            for k in [kmax, kmax - 1, nt // 2] + [rng.randrange(k0 + 1, kmax) for _ in range(5)]:
+                u, st, body, a = ask(k)
+                want = (a0[0] + 20 * (k - k0), a0[1] + 20 * (k - k0), a0[2])
+                if a != want:
+                    stats["scale answer differs"] += 1
+                    rep.direct.append(("scale-answer-differs",
+                        "line file of %d stops x %d trips with a 20 s headway: the request made at %d leaves at %d and arrives at %d (%d steps), so the one made %d s later "
+                        "should leave at %d and arrive at %d; GET %s answered %s %s; server log: %s" % (
+                            ns, nt, 1000 + 20 * k0 - off, a0[0], a0[1], a0[2], 20 * (k - k0), want[0], want[1], u[:170], st, (body or b"")[:160].replace(b"\n", b" "),
+                            " | ".join(l for l in srv.output().splitlines() if "rror" in l and "dataSources" not in l)[:300]), head + "get %s\nget %s\n" % (u0, u)))
+                    break
+                rep.nontrivial.add(hash(("scale", ns, nt, k, j)))
+            if not srv.alive() or srv.sanitizer_output():
+                rep.direct.append(("scale-crash", "server died / sanitizer report on a large line file: %s" % srv.sanitizer_output()[:300], head))
+        except Exception as e:
+            rep.obligation("scale-leg(C16)", False, "the scale leg failed to run: %r" % (e,)); return
+        finally:
+            if srv: srv.stop()
+            shutil.rmtree(cdir, ignore_errors=True)
+    rep.obligation("http:long-line-many-trips-answered-like-the-dataset", len(rep.direct) == n0, "%d difference(s)" % (len(rep.direct) - n0))
+
+
 def run_c16(tier, seed, replay=None, theorems=None, module=None):
     ths = theorems or []
     rep = core.Report("C16", tier, seed, level="proof" if ths else "exploration")
@@ -188,6 +254,12 @@ def run_c16(tier, seed, replay=None, theorems=None, module=None):
         if replay and "#!loader" in open(replay).read():
             text = open(replay).read()
             loader_corr.run_leg(rep, model, seed, tier, "valid", replay_text=text[text.index("#!loader"):])
+            return rep.finish()
+        if replay and "#!c16scale" in open(replay).read():
+            server = core.harness_phase(rep, "server", "asan"); cachegen = core.harness_phase(rep, "cachegen", "plain")
+            if server and cachegen:
+                c16_scale_leg(rep, seed, tier, stats, server, cachegen)
+                for sig, desc, txt in rep.direct: print("replay scale leg: %s" % desc[:600])
             return rep.finish()
         if not replay:
             loader_corr.run_leg(rep, model, seed, tier, "valid")
@@ -292,6 +364,8 @@ def run_c16(tier, seed, replay=None, theorems=None, module=None):
                         rep.samples.append(dict(dataset=one, request=a["url"], implementation=ht[:400], in_memory=(it or "")[:400], model=(mt or "")[:400]))
                 if replay:
                     print("replay %s #%d %s\n  http     : %s\n  in-memory: %s\n  model    : %s" % (did, i, a["url"], ht, it, mt))
+        if not replay:
+            c16_scale_leg(rep, seed, tier, stats, server, cachegen)
         rep.cov["input_distribution"] = dict(stats)
         rep.cov["streams"] = dict(C16_STREAMS)
         rep.cov["timing"] = dict(inproc_and_model_s=round(t_inproc, 1), http_s=round(t_http, 1), servers_in_parallel=PAR,
